@@ -7,7 +7,10 @@ function is eventually invoked."
 Two levels:
 
 * the activation model (any call stack, any lexical-parent map; any sequence of
-  makeClosure / call / spawn / ret operations of any length);
+  makeClosure / call / spawn / ret / abort operations of any length);
+* the frame machine (the re-used frame slots of `vm.frames` with their storage): cells are per
+  activation however earlier activations ended, a captured variable is one cell shared with
+  its live owner, and the machine implements one variable per (activation, slot);
 * the closure-language evaluator whose `Mode.positional` instance is compared with the real
   compiler + VM on every generated program (Impl) and whose `Mode.lexical` instance is the
   specification (Spec).  All statements are for every program, every recursion budget
@@ -158,12 +161,198 @@ theorem C02_partial_depth1_activations (ops : List AOp) :
       | call c => rfl
       | spawn c => rfl
       | ret => rfl
+      | abort => rfl
     simp only [AState.run, hstep]
     cases s.step .lexical op with
     | none => rfl
     | some s' => exact ih s' h.2
 
 example : (witnessOps.take 5 ++ [AOp.makeClosure [0]]).all AOp.depth1 = true := by decide
+
+/-! ## Frame slots: cells are per activation, however earlier activations ended
+
+The frame machine `FM` (Model, section 1b) is the storage discipline of vm/frame.go: re-used
+frame slots, inline storage, heap slices, `capturedLocals`.  Its operations include the
+ABNORMAL exit `FOp.abort` (an error propagates out of the function: the frame is popped without
+a return).  All statements are for EVERY sequence of operations from the initial state. -/
+
+theorem FM.run_append : ∀ (ops1 ops2 : List FOp) (s : FM),
+    FM.run s (ops1 ++ ops2) = (FM.run s ops1).bind fun s' => FM.run s' ops2 := by
+  intro ops1
+  induction ops1 with
+  | nil => intro ops2 s; rfl
+  | cons op ops ih =>
+    intro ops2 s
+    simp only [List.cons_append, FM.run]
+    cases s.step op with
+    | none => rfl
+    | some s1 => exact ih ops2 s1
+
+/-- every state the frame machine reaches from the initial one satisfies the invariant,
+    whatever the sequence of calls, returns, ERROR exits, captures, loads and stores -/
+theorem FM.reachable_inv (ops : List FOp) (s : FM) (hr : FM.run FM.init ops = some s) : s.Inv :=
+  FM.inv_run ops FM.init s FM.inv_init hr
+
+/-- **Cells are per activation, whatever way earlier activations ended.**  In every state the
+    frame machine reaches — after any sequence of calls, returns, ERROR exits (`abort`), captures,
+    loads and stores, of any length — two cells that belong to different activations point into
+    different heap slices, and a write through one is not seen through the other.  In particular
+    a closure created by a new activation never shares a cell with a closure of an activation
+    that has finished or was aborted, even though the new activation runs in the same frame
+    slot (same call depth) as the dead one. -/
+theorem cells_fresh_after_abort (ops : List FOp) (s : FM) (hr : FM.run FM.init ops = some s)
+    (c1 c2 : FCell) (h1 : c1 ∈ s.cells) (h2 : c2 ∈ s.cells) (hne : c1.act ≠ c2.act) :
+    c1.addr ≠ c2.addr ∧
+    (∀ (j : Nat) (v : Int) (s' : FM), s.cells[j]? = some c1 → s.step (.storeFree j v) = some s' →
+      s'.readCell c2 = s.readCell c2) := by
+  have hinv := FM.reachable_inv ops s hr
+  have hadr : c1.addr ≠ c2.addr := by
+    intro he
+    have e1 := (hinv.cell_owner c1 h1).2.1
+    have e2 := (hinv.cell_owner c2 h2).2.1
+    rw [he] at e1
+    exact hne (e1.symm.trans e2)
+  refine ⟨hadr, ?_⟩
+  intro j v s' hj hs
+  simp only [FM.step, hj, Option.some.injEq] at hs
+  subst hs
+  simp only [FM.readCell]
+  rw [upd_other _ _ _ _ (fun h => hadr h.symm)]
+
+/-- **One cell per variable.**  Two cells for the same variable (same activation, same slot) —
+    made for different closures, at different times, from different frames-back distances —
+    are the same storage: they read the same value, and a write through one is read through
+    the other. -/
+theorem capture_one_cell_per_variable (ops : List FOp) (s : FM) (hr : FM.run FM.init ops = some s)
+    (c1 c2 : FCell) (h1 : c1 ∈ s.cells) (h2 : c2 ∈ s.cells) (ha : c1.act = c2.act) (hi : c1.idx = c2.idx) :
+    s.readCell c1 = s.readCell c2 ∧
+    (∀ (j : Nat) (v : Int) (s' : FM), s.cells[j]? = some c1 → s.step (.storeFree j v) = some s' →
+      s'.readCell c2 = v) := by
+  have hinv := FM.reachable_inv ops s hr
+  have hadr := hinv.cell_same c1 c2 h1 h2 ha
+  refine ⟨by simp only [FM.readCell, hadr, hi], ?_⟩
+  intro j v s' hj hs
+  simp only [FM.step, hj, Option.some.injEq] at hs
+  subst hs
+  simp only [FM.readCell, ← hadr, ← hi, upd_same]
+
+/-- as long as the activation a cell belongs to is on the call stack (running or suspended, in
+    whichever frame slot), that frame's `locals` IS the heap slice the cell points into -/
+theorem live_owner_locals_are_the_cell_slice (ops : List FOp) (s : FM) (hr : FM.run FM.init ops = some s)
+    (c : FCell) (hc : c ∈ s.cells) (k : Nat) (hk : k ≤ s.fp) (hlive : (s.frames k).act = c.act) :
+    (s.frames k).heapLoc = some c.addr :=
+  (FM.reachable_inv ops s hr).cell_live c k hc hk hlive
+
+/-- **A captured variable is ONE cell shared by the defining activation and every closure over
+    it, for the whole remaining life of that activation.**  In every reachable state, for every
+    cell `c` whose activation is the running one (reached again after any number of nested
+    calls, returns and aborted callees, and wherever the capture was executed — in the owner's
+    own code or in a callee, `MakeCell _ back` with `back ≥ 1`): the owner's `LoadFast` reads
+    what the cell holds; a `StoreFast` by the owner is what the closure's `LoadFree` reads next;
+    a `StoreFree` by the closure is what the owner's `LoadFast` reads next. -/
+theorem capture_shares_with_live_owner (ops : List FOp) (s : FM) (hr : FM.run FM.init ops = some s)
+    (c : FCell) (j : Nat) (hc : s.cells[j]? = some c) (hlive : (s.frames s.fp).act = c.act) (v : Int) :
+    s.readFast c.idx = s.readCell c ∧
+    (∃ s', s.step (.storeFast c.idx v) = some s' ∧ s'.readCell c = v) ∧
+    (∃ s', s.step (.storeFree j v) = some s' ∧ s'.readFast c.idx = v) := by
+  have hmem : c ∈ s.cells := List.mem_of_getElem? hc
+  have hloc := live_owner_locals_are_the_cell_slice ops s hr c hmem s.fp (Nat.le_refl _) hlive
+  refine ⟨?_, ?_, ?_⟩
+  · simp only [FM.readFast, FM.frameVal, hloc, FM.readCell]
+  · refine ⟨_, by simp only [FM.step, hloc]; rfl, ?_⟩
+    simp only [FM.readCell, upd_same]
+  · refine ⟨_, by simp only [FM.step, hc]; rfl, ?_⟩
+    simp only [FM.readFast, FM.frameVal, hloc, upd_same]
+
+/-- a write by the owner to ANOTHER of its variables, or by anybody through a cell of another
+    variable or another activation, leaves the captured variable alone -/
+theorem capture_untouched_by_other_writes (ops : List FOp) (s : FM) (hr : FM.run FM.init ops = some s)
+    (c : FCell) (hc : c ∈ s.cells) (v : Int) :
+    (∀ (i : Nat) (s' : FM), i ≠ c.idx → s.step (.storeFast i v) = some s' → s'.readCell c = s.readCell c) ∧
+    (∀ (i : Nat) (s' : FM), (s.frames s.fp).act ≠ c.act → s.step (.storeFast i v) = some s' → s'.readCell c = s.readCell c) := by
+  have hinv := FM.reachable_inv ops s hr
+  refine ⟨?_, ?_⟩
+  · intro i s' hi hs
+    simp only [FM.step] at hs
+    split at hs
+    · rename_i a ha
+      simp only [Option.some.injEq] at hs; subst hs
+      simp only [FM.readCell]
+      by_cases hca : c.addr = a
+      · subst hca; rw [upd_same, upd_other _ _ _ _ (fun h => hi h.symm)]
+      · rw [upd_other _ _ _ _ hca]
+    · simp only [Option.some.injEq] at hs; subst hs; rfl
+  · intro i s' hact hs
+    simp only [FM.step] at hs
+    split at hs
+    · rename_i a ha
+      simp only [Option.some.injEq] at hs; subst hs
+      simp only [FM.readCell]
+      have hca : c.addr ≠ a := by
+        intro he
+        have e1 := (hinv.cell_owner c hc).2.1
+        have e2 := (hinv.loc_owner s.fp a (Nat.le_refl _) ha).2
+        rw [he] at e1
+        exact hact (e2.symm.trans e1)
+      rw [upd_other _ _ _ _ hca]
+    · simp only [Option.some.injEq] at hs; subst hs; rfl
+
+
+/-- **The frame machine implements one variable per (activation, slot).**  For every sequence
+    of operations (calls with few or many locals, returns, error exits, captures at any
+    frames-back distance, loads and stores by the running function and through cells): the
+    frame machine and the variable machine accept the same sequences and show the same loaded
+    values.  This is what entitles the closure-language evaluator to use `(activation, slot)`
+    pairs as cells (`St.acts`, `readCell`, `writeCell`). -/
+theorem frames_refine_variables (ops : List FOp) :
+    (FM.run FM.init ops).map (·.out) = (VarM.run VarM.init ops).map (·.out) :=
+  FM.sim_run ops FM.init VarM.init FM.inv_init FM.sim_init
+
+/-- the two demo programs of the scenario, as operation sequences.
+    (1) `mk(-1)` creates a closure over its local 0 and is aborted; `mk(5)` runs in the same
+    frame slot, captures ITS local 0 and reads it through the cell: 5, not the dead -1.
+    (2) `f` (≤ 8 locals) stores 1, a callee captures `f`'s local 0 (`MakeCell 0 1`) and returns;
+    `f` stores 2; the closure reads 2; the closure stores 20; `f` reads 20. -/
+def abortDemo : List FOp :=
+  [.call false, .storeFast 0 (-1), .makeCell 0 0, .abort,
+   .call false, .storeFast 0 5, .makeCell 0 0, .loadFree 1, .loadFree 0]
+def ownerDemo : List FOp :=
+  [.call false, .storeFast 0 1, .call false, .makeCell 0 1, .ret, .storeFast 0 2, .loadFree 0,
+   .storeFree 0 20, .loadFast 0]
+
+example : (FM.run FM.init abortDemo).map (·.out) = some [-1, 5] := by decide
+example : (FM.run FM.init ownerDemo).map (·.out) = some [20, 2] := by decide
+example : ((FM.run FM.init abortDemo).map fun s => s.cells.map fun c => (c.addr, c.act)) = some [(0, 1), (1, 2)] := by decide
+
+/-- what the theorems exclude (1): a machine that does NOT reset `capturedLocals` when a slot is
+    activated (it relies on the return instruction to clear it, which an error exit skips):
+    the cell of the new activation aliases the dead one's slice and reads -1 -/
+def FM.stepNoReset (s : FM) : FOp → Option FM
+  | .call wide =>
+    (s.step (.call wide)).map fun s' =>
+      { s' with frames := upd s'.frames s'.fp { s'.frames s'.fp with captured := (s.frames (s.fp + 1)).captured } }
+  | .ret =>
+    (s.step .ret).map fun s' => { s' with frames := upd s'.frames s.fp { s.frames s.fp with captured := none } }
+  | op => s.step op
+
+def FM.runWith (step : FM → FOp → Option FM) : FM → List FOp → Option FM
+  | s, [] => some s
+  | s, op :: ops => (step s op).bind fun s' => FM.runWith step s' ops
+
+example : (FM.runWith FM.stepNoReset FM.init abortDemo).map (·.out) = some [-1, -1] := by decide
+
+/-- what the theorems exclude (2): an evaluator that keeps the `locals` slice it saw when the
+    function started (`cached`) for its `StoreFast`/`LoadFast` while a callee's `MakeCell` moves
+    the frame's locals to the heap: owner and closure each have a private copy (2 and 20 are
+    lost: the closure reads the 1 it copied, the owner reads its own 2) -/
+def ownerDemoStale : Option (List Int) :=
+  -- the owner's accesses after the callee returned go to the inline storage of frame 1
+  (FM.run FM.init [.call false, .storeFast 0 1, .call false, .makeCell 0 1, .ret]).bind fun s =>
+    let s1 : FM := { s with inl := upd s.inl 1 (upd (s.inl 1) 0 2) }            -- `v = 2` through the stale slice
+    (s1.step (.loadFree 0)).bind fun s2 => (s2.step (.storeFree 0 20)).map fun s3 =>
+      s3.inl 1 0 :: s3.out                                                       -- the owner's read, stale again
+
+example : ownerDemoStale = some [2, 1] := by decide
 
 /-! ## The closure language: Impl (positional) against Spec (lexical) -/
 
